@@ -4,6 +4,7 @@ package main
 // scripted fake resolver.Resolver as Upstream. Serves C01 C02 C04 C05 C13.
 
 import (
+	"bytes"
 	"context"
 	"encoding/binary"
 	"errors"
@@ -17,6 +18,7 @@ import (
 	"sync/atomic"
 	"time"
 
+	"github.com/nextdns/nextdns/discovery"
 	"github.com/nextdns/nextdns/proxy"
 	"github.com/nextdns/nextdns/resolver"
 	"github.com/nextdns/nextdns/resolver/query"
@@ -58,6 +60,7 @@ type fakeUp struct {
 	script    map[string]*behaviour // by q.Name
 	cur       *behaviour            // default for unscripted names
 	calls     []upCall
+	gen       int // bumped by takeCalls
 	active    int32
 	maxActive int32
 	arrived   chan string // optional: names as they arrive
@@ -71,7 +74,18 @@ func (u *fakeUp) Resolve(ctx context.Context, q query.Query, buf []byte) (int, r
 		b = u.cur
 	}
 	u.calls = append(u.calls, upCall{q.Name, append([]byte{}, q.Payload...)})
+	callIdx, callGen := len(u.calls)-1, u.gen
 	u.mu.Unlock()
+	// a real upstream is sent the payload when the connection is there, not when the handler arrives: what the
+	// query holds at that later moment is what counts
+	resample := func() {
+		u.mu.Lock()
+		if u.gen == callGen && callIdx < len(u.calls) && !bytes.Equal(u.calls[callIdx].payload, q.Payload) {
+			u.calls[callIdx].payload = append([]byte{}, q.Payload...)
+		}
+		u.mu.Unlock()
+	}
+	defer resample()
 	a := atomic.AddInt32(&u.active, 1)
 	for {
 		m := atomic.LoadInt32(&u.maxActive)
@@ -131,6 +145,7 @@ func (u *fakeUp) Resolve(ctx context.Context, q query.Query, buf []byte) (int, r
 func (u *fakeUp) takeCalls() []upCall {
 	u.mu.Lock()
 	c := u.calls
+	u.gen++
 	u.calls = nil
 	u.mu.Unlock()
 	return c
@@ -157,6 +172,8 @@ func newWorldAddrs(addrs []string, k uint, timeout time.Duration) (*world, error
 		Timeout:             timeout,
 		MaxInflightRequests: k,
 		ErrorLog:            func(error) { atomic.AddInt32(&w.errs, 1) },
+		// as run.go wires it by default (use-hosts): every query name first goes through the hosts table
+		LocalResolver: discovery.Resolver{&discovery.Hosts{}},
 	}
 	ctx, cancel := context.WithCancel(context.Background())
 	w.cancel = cancel
